@@ -86,6 +86,12 @@ def run(ctx):
             ctx.coverage["growth_network"] = grow_network.run_growth(ctx)
         except Exception as e:   # a failing growth run is a machinery problem of the informing part only
             ctx.notes.append("network growth failed: %s" % str(e)[:300])
+        # growth: payload of the `hex` command (spec/HexArgs.tla): what the tokens behind the split mean; notes only
+        try:
+            from checks import grow_hexargs
+            ctx.coverage["growth_hexargs"] = grow_hexargs.run_growth(ctx)
+        except Exception as e:
+            ctx.notes.append("hex payload growth failed: %s" % str(e)[:300])
 
 
 def _run_main(ctx):
